@@ -184,7 +184,7 @@ func (c *StructCase) callWith(src interface{}, unscoped valid.RM, perType map[st
 	case "Nested":
 		m := map[interface{}]valid.RM{}
 		for _, n := range names {
-			m[reflect.New(libType(n)).Interface()] = perType[n]
+			m[c.typeToken(libType(n), true)] = perType[n]
 		}
 		return valid.NestedStructForRule(src, m)
 	}
@@ -204,10 +204,10 @@ func (c *StructCase) callWith(src interface{}, unscoped valid.RM, perType map[st
 	}
 	for _, n := range names {
 		if c.Twice && di < len(decoys) {
-			vs.SetRule(decoys[di], reflect.New(libType(n)).Interface())
+			vs.SetRule(decoys[di], c.typeToken(libType(n), false))
 			di++
 		}
-		vs.SetRule(perType[n], reflect.New(libType(n)).Interface())
+		vs.SetRule(perType[n], c.typeToken(libType(n), false))
 	}
 	for _, n := range c.CallFns {
 		vs.SetValidFn(n, perCallFn(n))
